@@ -1,3 +1,166 @@
-"""C20: loom exploration of temp_file_name (filled in later)."""
+"""C20: loom exploration of the real temp_file_name (E-sched), plus the labelled free-running corroboration."""
+import json
+import os
+import re
+import shutil
+import subprocess
+import tempfile
+import time
+
+TESTS_QUICK = ["c20_2x1", "c20_2x2", "c20_2x2_distinct_names", "c20_2x3", "c20_3x1", "c20_3x2"]
+TESTS_THOROUGH = TESTS_QUICK + ["c20_3x3_thorough", "c20_4x1_thorough"]
+
+
+def _env(chk):
+    env = chk.base_env()
+    env["RUSTFLAGS"] = "--cfg simple_sds_verif --cfg simple_sds_verif_loom"
+    env["CARGO_TARGET_DIR"] = os.path.join(chk.TARGET, "loom")
+    return env
+
+
+def _dir(chk):
+    return os.path.join(chk.HARNESS, "loomshadow")
+
+
 def build(chk):
+    t0 = time.time()
+    p = subprocess.run(["cargo", "test", "--offline", "-q", "--release", "--test", "c20", "--no-run"], cwd=_dir(chk), env=_env(chk), stdout=subprocess.PIPE, stderr=subprocess.STDOUT, text=True)
+    if p.returncode != 0:
+        chk.log("BUILD FAILED (loom):\n" + "\n".join(l for l in p.stdout.splitlines() if not l.startswith("warning"))[-3000:])
+        return False
+    chk.log("built loom test in %.1fs" % (time.time() - t0))
     return True
+
+
+def _run_test(chk, name, timeout):
+    cmd = ["cargo", "test", "--offline", "-q", "--release", "--test", "c20", "--", "--include-ignored", "--exact", name, "--nocapture", "--test-threads=1"]
+    try:
+        p = subprocess.run(cmd, cwd=_dir(chk), env=_env(chk), stdout=subprocess.PIPE, stderr=subprocess.STDOUT, text=True, timeout=timeout)
+        return p.returncode, p.stdout
+    except subprocess.TimeoutExpired as e:
+        return None, (e.stdout or b"").decode("utf-8", "replace") if isinstance(e.stdout, bytes) else (e.stdout or "")
+
+
+def _parse(out):
+    res = []
+    for m in re.finditer(r"C20-RESULT threads=(\d+) calls=(\d+) shared_name=(\w+) name_part=(\"[^\n]*?\") executions=(\d+) distinct_outcomes=(\d+)", out):
+        res.append(dict(threads=int(m.group(1)), calls=int(m.group(2)), shared_name=m.group(3) == "true", name_part=json.loads(m.group(4)), executions=int(m.group(5)), distinct_outcomes=int(m.group(6))))
+    return res
+
+
+def run(prop, cfg, tier, seed, chk):
+    t0 = time.time()
+    if not build(chk) or not chk.build_all(["rel"], ["c20"]):
+        chk.log("machinery failure: build failed")
+        return 2
+    tests = TESTS_THOROUGH if tier == "thorough" else TESTS_QUICK
+    configs, violations, errors = [], [], []
+    for t in tests:
+        rc, out = _run_test(chk, t, 3600)
+        parsed = _parse(out)
+        configs.extend(dict(test=t, **p) for p in parsed)
+        if rc is None:
+            errors.append("loom test %s hit the wall cap" % t)
+        elif rc != 0:
+            m = re.search(r"C20-VIOLATION[^\n]*", out)
+            if m:
+                # Determinism: the same exploration must fail the same way again.
+                rc2, out2 = _run_test(chk, t, 3600)
+                m2 = re.search(r"C20-VIOLATION[^\n]*", out2)
+                kind = "duplicate" if "duplicate" in m.group(0) else "name-part"
+                if rc2 != 0 and m2 and (("duplicate" in m2.group(0)) == (kind == "duplicate")):
+                    violations.append(dict(sig="temp_file_name[loom %s]/%s" % (t, kind), case={"loom_test": t}, detail={"observed": m.group(0)[:600]}, build="loom", driver="loom", monitor=False))
+                else:
+                    errors.append("loom test %s failed but did not fail the same way on the second run" % t)
+            else:
+                errors.append("loom test %s failed without a C20-VIOLATION message: %s" % (t, out[-600:]))
+        elif not parsed:
+            errors.append("loom test %s produced no result line" % t)
+    # Free-running corroboration + deterministic sequential checks on the normal build.
+    scratch_root = tempfile.mkdtemp(prefix="ssds-verif.")
+    try:
+        results, v2, e2 = chk.explore(prop, cfg, tier, seed, ["c20"], ["rel"], False, scratch_root)
+        per_build, counters, sets, samples = chk.merge_done(results)
+        new2, known2, nondet = chk.decide(prop, v2, scratch_root)
+    finally:
+        shutil.rmtree(scratch_root, ignore_errors=True)
+    errors += e2
+    # A free-running duplicate cannot be replayed deterministically; it is reported as observed (labelled exception in DESIGN.md §2.5).
+    free = [v for v in v2 if "free-running" in v["sig"]]
+    by_sig = {}
+    for v in free:
+        by_sig.setdefault(v["sig"], v)
+    new = list(new2) + [v for s, v in by_sig.items() if s not in [n["sig"] for n in new2]]
+    errors += [e for e in nondet if "free-running" not in e]
+    findings, _ = chk.load_known()
+    known = list(known2)
+    for v in violations:
+        hit = [f for f in findings if f["property"] == prop and chk.sig_matches(f["sig"], v["sig"])]
+        if hit:
+            known.append((v, hit[0]))
+        else:
+            new.append(v)
+    executions = sum(c["executions"] for c in configs)
+    coverage = dict(
+        states=executions,
+        transitions=sum(c["executions"] * c["threads"] * c["calls"] for c in configs),
+        traces_validated_against_impl=executions,
+        samples=[dict(test=c["test"], threads=c["threads"], calls=c["calls"], name_part=c["name_part"], executions=c["executions"], distinct_outcomes=c["distinct_outcomes"]) for c in configs[:12]],
+        explanation="states = complete executions (interleavings) explored by loom, no preemption bound; every execution runs the real temp_file_name and checks pairwise-distinct paths that contain the caller's name part; "
+                    "transitions = atomic counter operations executed; distinct_outcomes = distinct assignments of counter values to calls observed (equals the multinomial (T*K)!/(K!^T) when every outcome was reached)",
+        evaluations=executions + sum(pb["evals"] for pb in per_build.values()),
+        distinct_nontrivial=sum(c["distinct_outcomes"] for c in configs),
+        rule=cfg["rule"],
+        exhaustive=not errors,
+        loom_configurations=configs,
+        free_running_corroboration=dict(label="SAMPLING - not a deciding step", per_build=per_build, counters=counters),
+        repo=chk.repo_state(),
+        machinery_errors=errors,
+        violation_signatures=sorted(set(v["sig"] for v in violations + v2)),
+    )
+    chk.write_evidence(prop, cfg, tier, seed, coverage, time.time() - t0, len(new) + len(known), cfg.get("assumptions", []))
+    for v, f in known:
+        print("KNOWN-FINDING: property=%s %s (sig=%s)" % (prop, f["text"], v["sig"]))
+    rc = 0
+    for v in new:
+        path = chk.write_replay(prop, v.get("driver", "loom"), v)
+        print("VIOLATION property=%s replay=%s" % (prop, path))
+        chk.log("  sig=%s detail=%s" % (v["sig"], json.dumps(v.get("detail"))[:400]))
+        rc = 1
+    print("%s %s: loom executions=%d over %d configurations, wall=%.1fs new_violations=%d known=%d" % (prop, tier, executions, len(configs), time.time() - t0, len(new), len(known)))
+    if errors:
+        for e in errors:
+            chk.log("machinery: " + e)
+        if rc == 0:
+            return 2
+    return rc
+
+
+def replay(prop, cfg, doc, chk):
+    if doc.get("driver") != "loom":
+        # free-running / sequential case of the normal build
+        if not chk.build_all(["rel"], ["c20"]):
+            return 2
+        scratch_root = tempfile.mkdtemp(prefix="ssds-verif.")
+        try:
+            r = chk.replay_case(prop, "c20", "rel", doc["case"], False, scratch_root)
+        finally:
+            shutil.rmtree(scratch_root, ignore_errors=True)
+        sigs = chk.outcome_sigs(r)
+        print("recorded: %s; observed: %s" % (doc["sig"], sorted(sigs)))
+        if doc["sig"] in sigs:
+            print("VIOLATION property=%s replay=(replayed)" % prop)
+            return 1
+        return 0
+    if not build(chk):
+        return 2
+    t = doc["case"]["loom_test"]
+    rc, out = _run_test(chk, t, 3600)
+    print("replaying loom exploration %s" % t)
+    m = re.search(r"C20-VIOLATION[^\n]*", out)
+    if rc != 0 and m:
+        print("observed: " + m.group(0)[:600])
+        print("VIOLATION property=%s replay=(replayed)" % prop)
+        return 1
+    print("no violation: " + "; ".join(l for l in out.splitlines() if "C20-RESULT" in l)[:600])
+    return 0
